@@ -32,6 +32,8 @@
 (*            difference of wrapper(x) - as it is - vs the original output  *)
 (*   sd_vals_end   the user's parameters after the history                  *)
 (*   exp_ok, E   export() after the history: layer sequence of the result   *)
+(*   dwe      after that export and a final wrapper.eval(): rel. difference *)
+(*            of the wrapper vs the original output                         *)
 (*   de       rel. difference export vs original (only where no BatchNorm   *)
 (*            had to be re-created), prediction only                        *)
 (* Every expected value is recomputed here with the operators of ImportLife *)
@@ -76,7 +78,7 @@ HistOk(h, i, wm) == IF i > Len(h) THEN TRUE
                     ELSE CASE h[i] = "train" -> HistOk(h, i + 1, TRUE)
                            [] h[i] = "eval"  -> HistOk(h, i + 1, FALSE)
                            [] h[i] = "forward" -> ~wm /\ HistOk(h, i + 1, wm)
-                           [] h[i] \in {"export", "summary", "cost"} -> HistOk(h, i + 1, wm)
+                           [] h[i] \in {"export", "export_nobn", "summary", "cost", "icv", "nassum"} -> HistOk(h, i + 1, wm)
                            [] OTHER -> FALSE
 
 CHarness(t, a, asis) ==
@@ -143,10 +145,12 @@ CWrapped(t, a, cfg, asis) ==
     IF ~Claimed(t.method) THEN OK
     ELSE IF t.dw \in 0..TOL THEN
         IF ~FnPreserved(a, asis)
-        THEN D("F51 predicted by the as-implemented model (wrapped function differs) but not observed")
+        THEN D("F51 / F73 predicted by the as-implemented model (wrapped function differs) but not observed")
         ELSE OK
-    ELSE IF cfg.fold /\ KF_ReuseBN(a, cfg) /\ ~FnPreserved(a, asis)
-         THEN K("F51:fold_bn=True folds the BatchNorm of a reused conv/linear+BN pair once per call site: wrapped model differs from the original by " \o ToString(t.dw) \o "e-12")
+    ELSE IF KF_ReuseBN(a, cfg) /\ ~FnPreserved(a, asis)
+         THEN K("F51:the BatchNorm(s) behind a reused conv/linear layer are fused / folded once per call site into the one layer object: wrapped model differs from the original by " \o ToString(t.dw) \o "e-12")
+    ELSE IF KF_DoubleBN(a, cfg) /\ ~FnPreserved(a, asis)
+         THEN K("F73:two BatchNorms in a row behind a searchable layer, fold_bn=False: the second fusion overwrites layer.bn, the first BatchNorm is lost (wrapped differs by " \o ToString(t.dw) \o "e-12)")
     ELSE IF Lin3Broken(t, a, cfg) /\ ~asis.ok
          THEN K("F52:searchable nn.Linear on a 3-D tensor: forward of the converted model raises / differs (" \o t.err \o ")")
          ELSE V("C07.wrapped_equal: wrapped output differs from the original output recorded before the conversion (eval mode) by " \o ToString(t.dw) \o "e-12 (relative), tolerance 1000")
@@ -209,9 +213,16 @@ CHist(t, a, cfg) == WalkH(t, 1, t.u0, t.method \in {"PIT", "MPS"}, Lin3Broken(t,
 \* after ANY history: the wrapper in eval mode - as it is - still equals the original in eval mode
 CHistOut(t, a, cfg, asis) ==
     IF ~Claimed(t.method) \/ t.dwh = -1 \/ t.dwh \in 0..TOL THEN OK
-    ELSE IF (cfg.fold /\ KF_ReuseBN(a, cfg) /\ ~FnPreserved(a, asis)) \/ (Lin3Broken(t, a, cfg) /\ ~asis.ok) THEN OK   \* CWrapped reports it
+    ELSE IF ((KF_ReuseBN(a, cfg) \/ KF_DoubleBN(a, cfg)) /\ ~FnPreserved(a, asis)) \/ (Lin3Broken(t, a, cfg) /\ ~asis.ok) THEN OK   \* CWrapped reports it
     ELSE V("C07.history_equal: after the history " \o ToString(t.hist) \o " the wrapper (training=False) differs from the original in eval mode by "
                \o ToString(t.dwh) \o "e-12")
+
+\* ... and when the user finally calls eval() (after the history and the last export), the wrapper computes the original function
+CEndOut(t, a, cfg, asis) ==
+    IF ~Claimed(t.method) \/ t.dwe = -1 \/ t.dwe \in 0..TOL THEN OK
+    ELSE IF ((KF_ReuseBN(a, cfg) \/ KF_DoubleBN(a, cfg)) /\ ~FnPreserved(a, asis)) \/ (Lin3Broken(t, a, cfg) /\ ~asis.ok) THEN OK   \* CWrapped reports it
+    ELSE V("C07.history_equal: after the history " \o ToString(t.hist) \o ", a further export() and eval(), the wrapper differs from the original in eval mode by "
+               \o ToString(t.dwe) \o "e-12")
 
 CExport(t, a, cfg, asis) ==
     IF ~Claimed(t.method) THEN OK
@@ -225,11 +236,13 @@ CExport(t, a, cfg, asis) ==
          IN  IF t.E \in exps THEN
                  IF t.E # dflt THEN D("SuperNet export selected another branch than the first maximum of the coefficients")
                  ELSE IF ExportSeq("asis", a, cfg, asis) # dflt
-                      THEN D("F51 predicted by the as-implemented model (re-created BatchNorm missing) but not observed")
+                      THEN D("F51 / F73 predicted by the as-implemented model (re-created BatchNorm missing) but not observed")
                       ELSE OK
-             ELSE IF ~cfg.fold /\ KF_ReuseBN(a, cfg) /\
+             ELSE IF KF_ReuseBN(a, cfg) /\
                      t.E \in {Flat(a, ExportCfg(a, asis), ExportBias(a, asis), h, NoChoice(a)) : h \in AsisBnVariants(a, cfg, asis)}
-                  THEN K("F51:export() re-creates the BatchNorm of a reused conv/linear+BN pair after one call site only: " \o FirstDiff(t.E, dflt))
+                  THEN K("F51:export() re-creates one BatchNorm for a reused conv/linear layer, after one call site only: " \o FirstDiff(t.E, dflt))
+             ELSE IF KF_DoubleBN(a, cfg) /\ t.E = ExportSeq("asis", a, cfg, asis)
+                  THEN K("F73:export() re-creates only the last of two BatchNorms in a row: " \o FirstDiff(t.E, dflt))
                   ELSE V("C07.export_arch: " \o FirstDiff(t.E, dflt))
 
 \* predictions of the as-implemented model (never an alarm)
@@ -264,7 +277,7 @@ Check(t) ==
         ELSE IF ~t.conv_ok THEN Pick(<<CPlaced(t), CConvert(t, a, cfg)>>)
         ELSE Pick(<<CPlaced(t), CConvert(t, a, cfg), CMasks(t, a, cfg), CNasCfg(t, a, cfg), CWrapped(t, a, cfg, asis),
                     CUserParams(t, a, cfg, asis), CUserOut(t, a, cfg, asis), CUserAttrs(t, a), CMode(t), CHist(t, a, cfg),
-                    CHistOut(t, a, cfg, asis), CExport(t, a, cfg, asis), CPredict(t, a, cfg, asis)>>)
+                    CHistOut(t, a, cfg, asis), CExport(t, a, cfg, asis), CEndOut(t, a, cfg, asis), CPredict(t, a, cfg, asis)>>)
 
 Init == tid \in 1..Len(Traces) /\ verdict = Check(Traces[tid])
 Next == UNCHANGED <<tid, verdict>>
